@@ -122,6 +122,14 @@ pub struct V1Bounds {
 
 pub fn v1_bounds(tier: Tier) -> V1Bounds {
     match tier {
+        Tier::Quick => V1Bounds { k: 4, d_all: 3, d_boundary: 4, d_empty: 6, utf_suffix: 0 },
+        Tier::Thorough => V1Bounds { k: 5, d_all: 5, d_boundary: 6, d_empty: 7, utf_suffix: 2 },
+    }
+}
+
+/// Bounds for the properties whose judge does heavy work per *accepted* input (every trailer, every prefix).
+pub fn v1_bounds_derived(tier: Tier) -> V1Bounds {
+    match tier {
         Tier::Quick => V1Bounds { k: 3, d_all: 3, d_boundary: 4, d_empty: 5, utf_suffix: 0 },
         Tier::Thorough => V1Bounds { k: 4, d_all: 4, d_boundary: 5, d_empty: 7, utf_suffix: 2 },
     }
@@ -131,7 +139,7 @@ pub fn v1_universes(b: &V1Bounds) -> Vec<Box<dyn Universe>> {
     vec![
         Box::new(u1::tcp4_universe(b.k)),
         Box::new(u1::tcp6_universe(b.k)),
-        Box::new(u1::unknown_universe(b.k.max(4))),
+        Box::new(u1::unknown_universe(6)), // six slots: the full product
         Box::new(u1::len_universe()),
         Box::new(u1::utf_universe(b.utf_suffix)),
         Box::new(u1::byte_universe("U1-byte/all-stems", u1::all_stems(), b.d_all)),
@@ -155,7 +163,7 @@ pub fn v2_universes(tier: Tier) -> Vec<Box<dyn Universe>> {
         }),
         Box::new(u2::sig_universe()),
         Box::new(u2::addr_universe()),
-        Box::new(u2::byte_universe(tier.pick(3, 5))),
+        Box::new(u2::byte_universe(tier.pick(4, 5))),
     ]
 }
 
